@@ -8,6 +8,7 @@
 import Mathlib.Algebra.Order.Field.Basic
 import TjdModel.Agg.Spec2
 import TjdLemmas.RobustLemmas
+import TjdLemmas.ExtraLemmas
 namespace Tjd.Props.C16
 open Tjd Tjd.Agg
 
@@ -86,5 +87,10 @@ theorem krum_neighbourhood (D : Mat α) (f : Nat) (i : Nat) (hi : i < D.length)
 theorem krum_rejects_iff (f k m n : Nat) :
     rejects (.krum f k) [m, n] true = true ↔ (m < f + 3 ∨ m < k) := by
   simp [rejects]
+
+/-- `TrimmedMean(trim_number = 0)` is the plain mean of every column (nothing is trimmed; the sort does not matter) -/
+theorem trimmedMean_zero_is_mean [Inhabited α] (n : Nat) (J : Mat α) :
+    trimmedMean 0 n J = (List.range n).map fun c => (col J c).sum / ((J.length : Nat) : α) := by
+  exact trimmedMean_zero_mean n J
 
 end Tjd.Props.C16
